@@ -19,12 +19,16 @@
      SET OF is the fragments of the sorted WHOLE list (not sorted fragments); that is
      permutation-invariant for any fragment unit and any length; sorting inside the
      fragment loop agrees up to K members and is refuted beyond.
-   DEFAULT materialisation, BIT STRING unused bits, wide INTEGER_t in PER/OER/XER and
+   - DEFAULT components of an extensible SEQUENCE, root and extension additions, for INTEGER /
+     ENUMERATED / BOOLEAN / NULL defaults (coq/Rt/CanonicalDefault.v over coq/Rt/Ext.v): the
+     encoders that ask default_value_cmp at every place are independent of explicit-vs-absent;
+     those that ask at some places only are refuted.
+   DEFAULT of other types, BIT STRING unused bits, wide INTEGER_t in PER/OER/XER and
    CANONICAL-XER are outside the modelled algebra: tie only. *)
 From Coq Require Import ZArith List Bool Permutation Sorted.
 From A1 Require Import Base.Bytes Leaf.IntegerConv Rt.Types Rt.Comb Rt.Der Rt.Uper Rt.Oer
   Rt.Canonical Rt.CanonicalProofs Rt.CanonicalCompare Rt.CanonicalCompareProofs
-  Rt.CanonicalFrag Rt.CanonicalFragProofs.
+  Rt.CanonicalFrag Rt.CanonicalFragProofs Rt.Ext Rt.CanonicalDefault Rt.CanonicalDefaultProofs.
 Import ListNotations.
 Local Open Scope Z_scope.
 
@@ -182,3 +186,70 @@ Theorem C06_per_fragment_sort_perm_refuted :
     /\ frag_each K l1 <> frag_each K l2.
 Proof. exact frag_each_perm_refuted. Qed.
 Print Assumptions C06_per_fragment_sort_perm_refuted.
+
+(* DEFAULT components: stored explicitly or left absent (coq/Rt/CanonicalDefault.v).
+   [dflt_rel d v1 v2]: the two stored component values are equal, or both are at the
+   DEFAULT d (absent, or stored and equal to it); dr / da = DEFAULTs of the root members
+   and of the extension additions.  Seeded changes C06-3 and C06-5 are
+   [dfl_oer_stored_bit]; the repaired finding C06-uper-extension-default is
+   [dfl_uper_root_only]. *)
+Theorem C06_default_der_representation_independent : forall dr da t rvs1 rvs2 avs1 avs2,
+  Forall3 dflt_rel dr rvs1 rvs2 -> Forall3 dflt_rel da avs1 avs2 ->
+  dfl_der dr da t (EVSeq rvs1 avs1) = dfl_der dr da t (EVSeq rvs2 avs2).
+Proof. exact dfl_der_indep. Qed.
+Print Assumptions C06_default_der_representation_independent.
+
+Theorem C06_default_uper_representation_independent : forall dr da t rvs1 rvs2 avs1 avs2,
+  Forall3 dflt_rel dr rvs1 rvs2 -> Forall3 dflt_rel da avs1 avs2 -> forall std,
+  dfl_uper std dr da t (EVSeq rvs1 avs1) = dfl_uper std dr da t (EVSeq rvs2 avs2).
+Proof. exact dfl_uper_indep. Qed.
+Print Assumptions C06_default_uper_representation_independent.
+
+Theorem C06_default_oer_representation_independent : forall dr da t rvs1 rvs2 avs1 avs2,
+  Forall3 dflt_rel dr rvs1 rvs2 -> Forall3 dflt_rel da avs1 avs2 ->
+  dfl_oer dr da t (EVSeq rvs1 avs1) = dfl_oer dr da t (EVSeq rvs2 avs2).
+Proof. exact dfl_oer_indep. Qed.
+Print Assumptions C06_default_oer_representation_independent.
+
+Theorem C06_default_never_encoded : forall dv v x,
+  elide1 (Some dv) v = VSome x -> leaf_eqb x dv = false.
+Proof. exact elide1_not_default. Qed.
+Print Assumptions C06_default_never_encoded.
+
+Theorem C06_default_elision_idempotent : forall ds vs, elide ds (elide ds vs) = elide ds vs.
+Proof. exact elide_idem. Qed.
+Print Assumptions C06_default_elision_idempotent.
+
+Theorem C06_default_oer_stored_extension_bit_partial : forall dr da t rvs avs,
+  elide da avs = avs ->
+  dfl_oer_stored_bit dr da t (EVSeq rvs avs) = dfl_oer dr da t (EVSeq rvs avs).
+Proof. exact dfl_oer_stored_bit_agrees. Qed.
+Print Assumptions C06_default_oer_stored_extension_bit_partial.
+
+Theorem C06_default_oer_stored_extension_bit_refuted :
+  exists dr da t rvs avs1 avs2, Forall3 dflt_rel da avs1 avs2
+    /\ dfl_oer dr da t (EVSeq rvs avs1) = dfl_oer dr da t (EVSeq rvs avs2)
+    /\ dfl_oer_stored_bit dr da t (EVSeq rvs avs1) = Some [0; 1]
+    /\ dfl_oer_stored_bit dr da t (EVSeq rvs avs2) = Some [128; 1; 2; 7; 0].
+Proof. exact dfl_oer_stored_bit_refuted. Qed.
+Print Assumptions C06_default_oer_stored_extension_bit_refuted.
+
+Theorem C06_default_uper_count_only_partial : forall std dr da t rvs avs,
+  elide da avs = avs ->
+  dfl_uper_count_only std dr da t (EVSeq rvs avs) = dfl_uper std dr da t (EVSeq rvs avs).
+Proof. exact dfl_uper_count_only_agrees. Qed.
+Print Assumptions C06_default_uper_count_only_partial.
+
+Theorem C06_default_uper_count_only_refuted :
+  exists dr da t rvs avs1 avs2, Forall3 dflt_rel da avs1 avs2
+    /\ dfl_uper false dr da t (EVSeq rvs avs1) = dfl_uper false dr da t (EVSeq rvs avs2)
+    /\ dfl_uper_count_only false dr da t (EVSeq rvs avs1) <> dfl_uper_count_only false dr da t (EVSeq rvs avs2).
+Proof. exact dfl_uper_count_only_refuted. Qed.
+Print Assumptions C06_default_uper_count_only_refuted.
+
+Theorem C06_default_uper_root_only_refuted :
+  exists dr da t rvs avs1 avs2, Forall3 dflt_rel da avs1 avs2
+    /\ dfl_uper false dr da t (EVSeq rvs avs1) = dfl_uper false dr da t (EVSeq rvs avs2)
+    /\ dfl_uper_root_only false dr da t (EVSeq rvs avs1) <> dfl_uper_root_only false dr da t (EVSeq rvs avs2).
+Proof. exact dfl_uper_root_only_refuted. Qed.
+Print Assumptions C06_default_uper_root_only_refuted.
